@@ -85,3 +85,324 @@ Example C06_traj_nonvacuous :
   traj_holds Ex.T0 [Ex.s0] (ESometimeBefore (EFluent 0%N []) (ENot (EFluent 0%N []))) = true /\
   traj_holds Ex.T0 [Ex.s0] (ESometime (EFluent 0%N [])) = false.
 Proof. split; vm_compute; reflexivity. Qed.
+
+(* ==========================================================================================================
+   LAYER A — individual compilers, modelled in Gallina and proved for ALL problems (of the modelled fragment:
+   instantaneous actions, no trajectory constraints other than state invariants).  Models: Compilers/LayerA_*.v;
+   proofs: Proofs/LayerA_*_proofs.v; tie to the code: structural correspondence Corr/Corr_LayerA.v evaluated by
+   harness/layera.py on the real compilers' output.  External behaviour enters as explicit arguments with explicit
+   hypotheses: the Simplifier ([smp], [simp_pre]; C11), fresh names ([nm]; C08), the DNF walker ([cdnf], [pre_dnf]; C12).
+   The translation-validation theorems above stay in force for every compiler (including these).
+   ========================================================================================================== *)
+Require Import UPV.Walkers.Subst UPV.Compilers.Variants UPV.Proofs.Variants_proofs.
+Require Import UPV.Compilers.LayerA_Defs UPV.Compilers.LayerA_Quant UPV.Compilers.LayerA_Inv UPV.Compilers.LayerA_Variants.
+Require Import UPV.Proofs.LayerA_Quant_proofs UPV.Proofs.LayerA_Inv_proofs UPV.Proofs.LayerA_Variants_proofs.
+
+(* ---------------------------------------------------------------- QuantifiersRemover, expression level.
+   [expand] = ExpressionQuantifiersRemover.  Side conditions (decidable, checked per generated case by the harness):
+   [wfe tau beta e] = e is buildable by the ExpressionManager ([nf]), the argument of every Not and the body of every
+   quantifier is syntactically Boolean ([bpos]; the type checker's guarantee), every occurrence and binder of a variable
+   id carries the variable's type tau and the variables of one quantifier are distinct ([vtyped]); [btyped beta I] = the
+   fluents declared Boolean hold Booleans.
+   Strict quantifiers (the documented reading): same value AND same definedness. *)
+Theorem C06_LA_expand_quantifiers_eval :
+  forall (tau : N -> N) (beta : N -> bool) (e : expr) (I : interp),
+    wfe tau beta e = true -> btyped beta I ->
+    eval false (expand (objs I) e) I = eval false e I.
+Proof. exact expand_quantifiers_eval. Qed.
+Print Assumptions C06_LA_expand_quantifiers_eval.
+
+(* Short-circuit quantifiers (what the evaluator does; And/Or stay strict): the expansion REFINES the original — a value
+   of the expansion is the value of the original; an instance that is undefined AFTER a deciding instance makes the
+   expansion undefined while the original keeps its value ([LA_expand_sc_not_equal] below). *)
+Theorem C06_LA_expand_quantifiers_eval_sc :
+  forall (tau : N -> N) (beta : N -> bool) (e : expr) (I : interp) (v : value),
+    wfe tau beta e = true -> btyped beta I ->
+    eval true (expand (objs I) e) I = Some v -> eval true e I = Some v.
+Proof. exact expand_quantifiers_eval_sc. Qed.
+Print Assumptions C06_LA_expand_quantifiers_eval_sc.
+
+(* wherever the strict reading of the original is defined, original and expansion agree in both modes *)
+Theorem C06_LA_expand_quantifiers_eval_sc_defined :
+  forall (tau : N -> N) (beta : N -> bool) (e : expr) (I : interp) (v : value),
+    wfe tau beta e = true -> btyped beta I -> eval false e I = Some v ->
+    eval true (expand (objs I) e) I = Some v /\ eval true e I = Some v.
+Proof. exact expand_quantifiers_eval_sc_defined. Qed.
+Print Assumptions C06_LA_expand_quantifiers_eval_sc_defined.
+
+Theorem C06_LA_expand_quantifier_free :
+  forall (tau : N -> N) (beta : N -> bool) (ob : N -> list N) (e : expr),
+    wfe tau beta e = true -> qf (expand ob e) = true.
+Proof. exact expand_quantifier_free. Qed.
+Print Assumptions C06_LA_expand_quantifier_free.
+
+Theorem C06_LA_expand_sc_not_equal :
+  exists e I, eval true e I = Some (VBool true) /\ eval true (expand (objs I) e) I = None.
+Proof. exact expand_sc_not_equal. Qed.
+Print Assumptions C06_LA_expand_sc_not_equal.
+
+(* ---------------------------------------------------------------- QuantifiersRemover, problem level.
+   [quant_compile smp P]: every precondition / goal / effect condition / effect value / state invariant expanded,
+   forall effects expanded into one effect per object tuple, effects whose condition became FALSE dropped, an action
+   whose expanded effects conflict left out; the compiled actions keep names and parameters, so a plan maps back to
+   itself.  Hypotheses: [smp_exact] (the Simplifier keeps value and definedness; the real one only refines, C11);
+   unique action names; [problem_wf] (every expression satisfies [wfe] with beta = the Boolean fluents of P);
+   [bool_state] (Boolean fluents hold Booleans initially; preserved by steps); [plan_targets_total] (effect targets are
+   defined: needed because a dropped FALSE-conditioned effect no longer evaluates its target). *)
+Theorem C06_LA_quant_sound :
+  forall (smp : expr -> expr), smp_exact smp ->
+  forall (P : problem) (tau : N -> N), unique_ids P -> problem_wf P tau = true ->
+  forall (s0 : state) (pi : list (N * list value)), bool_state P s0 -> plan_targets_total P pi ->
+    valid_plan false (quant_compile smp P) s0 pi = true -> valid_plan false P s0 pi = true.
+Proof. exact quant_sound. Qed.
+Print Assumptions C06_LA_quant_sound.
+
+(* the initial state is judged alike (state invariants / bounded types checked by get_initial_state) *)
+Theorem C06_LA_quant_init_ok :
+  forall (smp : expr -> expr), smp_exact smp ->
+  forall (P : problem) (tau : N -> N), problem_wf P tau = true ->
+  forall s0 : state, bool_state P s0 ->
+    invariants_ok false (quant_compile smp P) s0 = invariants_ok false P s0.
+Proof. exact quant_init_ok. Qed.
+Print Assumptions C06_LA_quant_init_ok.
+
+(* ---------------------------------------------------------------- StateInvariantsRemover / BoundedTypesRemover.
+   The moved constraints M (the state invariants / the bounded-type constraints [bound_invs P]) become a precondition of
+   every action and a goal: along s0 -> ... -> sn the original checks M in s1..sn, the compiled problem in
+   s0..s(n-1) and sn.  So the verdicts differ EXACTLY by "M holds in the initial state" — soundness needs no hypothesis
+   on the initial state, completeness needs exactly that one.  Hypotheses: [smp_holds] (simplification does not change
+   whether a condition holds), unique action names, and for the invariants that they do not depend on action
+   parameters ([closed_cond]; the bounded-type constraints are closed by construction). *)
+Theorem C06_LA_sir_valid_plan :
+  forall (smp : expr -> expr), smp_holds smp ->
+  forall P : problem, unique_ids P -> Forall (closed_cond P) (p_invs P) ->
+  forall (s0 : state) (pi : list (N * list value)),
+    valid_plan false (sir_compile smp P) s0 pi =
+    all_hold false (mk_interp P s0 []) (p_invs P) && valid_plan false P s0 pi.
+Proof. exact sir_valid_plan. Qed.
+Print Assumptions C06_LA_sir_valid_plan.
+
+Theorem C06_LA_sir_sound :
+  forall (smp : expr -> expr), smp_holds smp ->
+  forall P : problem, unique_ids P -> Forall (closed_cond P) (p_invs P) ->
+  forall (s0 : state) (pi : list (N * list value)),
+    valid_plan false (sir_compile smp P) s0 pi = true -> valid_plan false P s0 pi = true.
+Proof. exact sir_sound. Qed.
+Print Assumptions C06_LA_sir_sound.
+
+(* together with the check of the initial state the two problems have the SAME valid plans *)
+Theorem C06_LA_sir_same_plans :
+  forall (smp : expr -> expr), smp_holds smp ->
+  forall P : problem, unique_ids P -> Forall (closed_cond P) (p_invs P) ->
+  forall (s0 : state) (pi : list (N * list value)),
+    invariants_ok false (sir_compile smp P) s0 && valid_plan false (sir_compile smp P) s0 pi =
+    invariants_ok false P s0 && valid_plan false P s0 pi.
+Proof. exact sir_same_plans. Qed.
+Print Assumptions C06_LA_sir_same_plans.
+
+Theorem C06_LA_btr_valid_plan :
+  forall (smp : expr -> expr), smp_holds smp ->
+  forall P : problem, unique_ids P ->
+  forall (s0 : state) (pi : list (N * list value)),
+    valid_plan false (btr_compile smp P) s0 pi =
+    all_hold false (mk_interp P s0 []) (bound_invs P) && valid_plan false P s0 pi.
+Proof. exact btr_valid_plan. Qed.
+Print Assumptions C06_LA_btr_valid_plan.
+
+Theorem C06_LA_btr_sound :
+  forall (smp : expr -> expr), smp_holds smp ->
+  forall P : problem, unique_ids P ->
+  forall (s0 : state) (pi : list (N * list value)),
+    valid_plan false (btr_compile smp P) s0 pi = true -> valid_plan false P s0 pi = true.
+Proof. exact btr_sound. Qed.
+Print Assumptions C06_LA_btr_sound.
+
+Theorem C06_LA_btr_same_plans :
+  forall (smp : expr -> expr), smp_holds smp ->
+  forall P : problem, unique_ids P ->
+  forall (s0 : state) (pi : list (N * list value)),
+    invariants_ok false (btr_compile smp P) s0 && valid_plan false (btr_compile smp P) s0 pi =
+    invariants_ok false P s0 && valid_plan false P s0 pi.
+Proof. exact btr_same_plans. Qed.
+Print Assumptions C06_LA_btr_same_plans.
+
+(* ---------------------------------------------------------------- ConditionalEffectsRemover (C37's action theorems
+   lifted to plans).  [cer_compile simp_pre nm P]: unconditional actions kept, every conditional action replaced by its
+   kept variants under fresh names; [vt_map_back (cer_table ...)] renames every step to the action its variant was made
+   from.  G = the states on which the hypotheses of the C37 theorems hold (e.g. all fluents defined and typed); it must
+   contain the initial state and be closed under the steps of the original problem. *)
+Theorem C06_LA_cer_sound :
+  forall (simp_pre : list expr -> option (list expr)), simp_pre_ok simp_pre ->
+  forall (nm : N -> nat -> N) (P : problem), unique_ids P -> unique_ids (cer_compile simp_pre nm P) ->
+  forall G : state -> Prop,
+    (forall s aid a args t, G s -> lookup_action P aid = Some a -> spec_step false P s a args = Some t -> G t) ->
+    (forall s args i a, G s -> In (i, a) (p_actions P) -> Forall (cond_ok P s a args) (cond_effs (a_effs a))) ->
+  forall (s0 : state) (pi' : list (N * list value)), G s0 ->
+    valid_plan false (cer_compile simp_pre nm P) s0 pi' = true ->
+    valid_plan false P s0 (vt_map_back (cer_table simp_pre nm P) pi') = true.
+Proof. exact cer_sound. Qed.
+Print Assumptions C06_LA_cer_sound.
+
+(* ---------------------------------------------------------------- DisjunctiveConditionsRemover, for problems whose goals
+   need no auxiliary goal action (the DNF of the goals is one conjunction, [goals']).  The fake-goal construction is
+   covered at action level by C37_goals_equiv / C37_fake_action_step and at plan level by the validator above. *)
+Theorem C06_LA_dcr_sound :
+  forall (cdnf : expr -> list expr) (pre_dnf : action -> list (list expr)) (nm : N -> nat -> N)
+         (P : problem) (goals' : list expr),
+    unique_ids P -> unique_ids (dcr_compile cdnf pre_dnf nm P goals') ->
+  forall G : state -> Prop,
+    (forall s aid a args t, G s -> lookup_action P aid = Some a -> spec_step false P s a args = Some t -> G t) ->
+    (forall s args i a, G s -> In (i, a) (p_actions P) -> Forall (dnf_effect_ok cdnf P s a args) (a_effs a)) ->
+    (forall s args i a, G s -> In (i, a) (p_actions P) ->
+       existsb (all_hold false (mk_interp P s (zip_params (a_params a) args))) (pre_dnf a) =
+       all_hold false (mk_interp P s (zip_params (a_params a) args)) (a_pre a)) ->
+    (forall s, G s -> all_hold false (mk_interp P s []) goals' = all_hold false (mk_interp P s []) (p_goals P)) ->
+  forall (s0 : state) (pi' : list (N * list value)), G s0 ->
+    valid_plan false (dcr_compile cdnf pre_dnf nm P goals') s0 pi' = true ->
+    valid_plan false P s0 (vt_map_back (dcr_table cdnf pre_dnf nm P) pi') = true.
+Proof. exact dcr_sound. Qed.
+Print Assumptions C06_LA_dcr_sound.
+
+(* ---------------------------------------------------------------- non-vacuity of the Layer A theorems *)
+Module LA.
+  Definition idsmp (e : expr) : expr := e.
+  Lemma idsmp_exact : smp_exact idsmp. Proof. intros e I. reflexivity. Qed.
+  Lemma idsmp_holds : smp_holds idsmp. Proof. intros e I. reflexivity. Qed.
+
+  (* type 0 with objects 1, 2; Boolean fluents p/1 (id 0), g/0 (id 1); variable 0 of type 0.
+     action 0:  pre  Exists v. not p(v)   eff  forall v. p(v) := true;  g := true when Forall v. not p(v)
+     goal  Forall v. p(v)      invariant  Exists v. (p(v) or not p(v)) *)
+  Definition v0 : expr := EVar 0%N 0%N.
+  Definition pv : expr := EFluent 0%N [v0].
+  Definition eff_all : effect :=
+    {| e_fl := 0%N; e_args := [v0]; e_val := EBool true; e_cond := EBool true; e_kind := KAssign;
+       e_vars := [(0%N, 0%N)]; e_isbool := true |}.
+  Definition eff_g : effect :=
+    {| e_fl := 1%N; e_args := []; e_val := EBool true; e_cond := EForall [(0%N, 0%N)] (ENot pv); e_kind := KAssign;
+       e_vars := []; e_isbool := true |}.
+  Definition act : action :=
+    {| a_params := []; a_pre := [EExists [(0%N, 0%N)] (ENot pv)]; a_effs := [eff_all; eff_g] |}.
+  Definition Pq : problem :=
+    {| p_objs := [(0%N, [1%N; 2%N])]; p_ifun := [];
+       p_fluents := [{| fd_id := 0%N; fd_sig := [0%N]; fd_ty := FBool |}; {| fd_id := 1%N; fd_sig := []; fd_ty := FBool |}];
+       p_actions := [(0%N, act)]; p_goals := [EForall [(0%N, 0%N)] pv; EFluent 1%N []];
+       p_invs := [EExists [(0%N, 0%N)] (EOr [pv; ENot pv])] |}.
+  Definition sq : state := fun f a => Some (VBool false).
+  Definition tauq (v : N) : N := 0%N.
+
+  Lemma sq_bool : bool_state Pq sq.
+  Proof. intros f args _. right. exists false. reflexivity. Qed.
+
+  Lemma targets : plan_targets_total Pq [(0%N, [])].
+  Proof.
+    intros aid args a [H|[]] EL. inversion H; subst. vm_compute in EL. inversion EL; subst. clear EL H.
+    intros s e J He HJ. destruct He as [<-|[<-|[]]].
+    - cbn in HJ. destruct HJ as [<-|[<-|[]]]; discriminate.
+    - cbn in HJ. destruct HJ as [<-|[]]. discriminate.
+  Qed.
+End LA.
+
+Example C06_LA_expand_quantifiers_eval_nonvacuous :
+  let e := EForall [(0%N, 0%N)] (ENot LA.pv) in
+  let I := mk_interp LA.Pq LA.sq [] in
+  wfe LA.tauq (is_bool_fluent LA.Pq) e = true /\ btyped (is_bool_fluent LA.Pq) I /\
+  expand (objs I) e = EAnd [ENot (EFluent 0%N [EObj 1%N]); ENot (EFluent 0%N [EObj 2%N])] /\
+  eval false e I = Some (VBool true).
+Proof.
+  cbv zeta. split; [vm_compute; reflexivity|]. split; [|split; vm_compute; reflexivity].
+  intros f args _. right. exists false. reflexivity.
+Qed.
+
+Example C06_LA_quant_sound_nonvacuous :
+  smp_exact LA.idsmp /\ unique_ids LA.Pq /\ problem_wf LA.Pq LA.tauq = true /\ bool_state LA.Pq LA.sq /\
+  plan_targets_total LA.Pq [(0%N, [])] /\ no_action_dropped LA.idsmp LA.Pq /\
+  valid_plan false (quant_compile LA.idsmp LA.Pq) LA.sq [(0%N, [])] = true /\
+  valid_plan false LA.Pq LA.sq [(0%N, [])] = true /\
+  qf (EAnd (a_pre (snd (List.hd (0%N, LA.act) (p_actions (quant_compile LA.idsmp LA.Pq)))))) = true.
+Proof.
+  split; [exact LA.idsmp_exact|]. split; [repeat constructor; intros []|]. split; [vm_compute; reflexivity|].
+  split; [exact LA.sq_bool|]. split; [exact LA.targets|].
+  split; [intros aid a [H|[]]; inversion H; subst; vm_compute; discriminate|].
+  split; [vm_compute; reflexivity|]. split; vm_compute; reflexivity.
+Qed.
+
+(* state invariant g (fluent 1) with an action that breaks it and one that does not; bounded fluent x in [0, 2] *)
+Module LB.
+  Definition setf (f : N) (b : bool) : action :=
+    {| a_params := []; a_pre := [];
+       a_effs := [{| e_fl := f; e_args := []; e_val := EBool b; e_cond := EBool true; e_kind := KAssign;
+                     e_vars := []; e_isbool := true |}] |}.
+  Definition inc : action :=
+    {| a_params := []; a_pre := [];
+       a_effs := [{| e_fl := 2%N; e_args := []; e_val := EInt 1; e_cond := EBool true; e_kind := KInc;
+                     e_vars := []; e_isbool := false |}] |}.
+  Definition Pi : problem :=
+    {| p_objs := []; p_ifun := [];
+       p_fluents := [{| fd_id := 0%N; fd_sig := []; fd_ty := FBool |}; {| fd_id := 1%N; fd_sig := []; fd_ty := FBool |};
+                     {| fd_id := 2%N; fd_sig := []; fd_ty := FNum (Some (zq 0)) (Some (zq 2)) |}];
+       p_actions := [(0%N, setf 0%N true); (1%N, setf 1%N false); (2%N, inc)];
+       p_goals := [EFluent 0%N []]; p_invs := [EFluent 1%N []] |}.
+  Definition si : state := fun f a => if (f =? 2)%N then Some (VNum (zq 1)) else Some (VBool (f =? 1)%N).
+  Lemma closed : Forall (closed_cond Pi) (p_invs Pi).
+  Proof. repeat constructor. Qed.
+  Lemma uniq : unique_ids Pi.
+  Proof. repeat constructor; cbn; intuition discriminate. Qed.
+End LB.
+
+Example C06_LA_sir_nonvacuous :
+  smp_holds LA.idsmp /\ unique_ids LB.Pi /\ Forall (closed_cond LB.Pi) (p_invs LB.Pi) /\
+  valid_plan false (sir_compile LA.idsmp LB.Pi) LB.si [(0%N, [])] = true /\
+  valid_plan false LB.Pi LB.si [(0%N, [])] = true /\
+  (* the plan that breaks the invariant in its last step is rejected by the compiled GOAL *)
+  valid_plan false (sir_compile LA.idsmp LB.Pi) LB.si [(0%N, []); (1%N, [])] = false /\
+  p_invs (sir_compile LA.idsmp LB.Pi) = [].
+Proof.
+  split; [exact LA.idsmp_holds|]. split; [exact LB.uniq|]. split; [exact LB.closed|].
+  repeat split; vm_compute; reflexivity.
+Qed.
+
+Example C06_LA_btr_nonvacuous :
+  smp_holds LA.idsmp /\ unique_ids LB.Pi /\
+  valid_plan false (btr_compile LA.idsmp LB.Pi) LB.si [(2%N, []); (0%N, [])] = true /\
+  valid_plan false LB.Pi LB.si [(2%N, []); (0%N, [])] = true /\
+  (* x = 3 after two increases: rejected by the precondition of the following action *)
+  valid_plan false (btr_compile LA.idsmp LB.Pi) LB.si [(2%N, []); (2%N, []); (0%N, [])] = false /\
+  valid_plan false LB.Pi LB.si [(2%N, []); (2%N, []); (0%N, [])] = false /\
+  bound_invs (btr_compile LA.idsmp LB.Pi) = [].
+Proof.
+  split; [exact LA.idsmp_holds|]. split; [exact LB.uniq|]. repeat split; vm_compute; reflexivity.
+Qed.
+
+(* a conditional effect whose condition is a defined Boolean in every state: g := true when not false *)
+Module LC.
+  Definition ce : effect :=
+    {| e_fl := 1%N; e_args := []; e_val := EBool true; e_cond := ENot (EBool false); e_kind := KAssign;
+       e_vars := []; e_isbool := true |}.
+  Definition ca : action := {| a_params := []; a_pre := [EFluent 0%N []]; a_effs := [ce] |}.
+  Definition Pc : problem :=
+    {| p_objs := []; p_ifun := [];
+       p_fluents := [{| fd_id := 0%N; fd_sig := []; fd_ty := FBool |}; {| fd_id := 1%N; fd_sig := []; fd_ty := FBool |}];
+       p_actions := [(0%N, ca)]; p_goals := [EFluent 1%N []]; p_invs := [] |}.
+  Definition sc0 : state := fun f a => Some (VBool (f =? 0)%N).
+  Definition sp (l : list expr) : option (list expr) := Some l.
+  Lemma sp_ok : simp_pre_ok sp. Proof. intros l I. reflexivity. Qed.
+  Definition nm (i : N) (k : nat) : N := (10 + N.of_nat k)%N.
+  Definition G (s : state) : Prop := True.
+  Lemma cond : forall s args i a, G s -> In (i, a) (p_actions Pc) -> Forall (cond_ok Pc s a args) (cond_effs (a_effs a)).
+  Proof.
+    intros s args i a _ [H|[]]. inversion H; subst. repeat constructor.
+    exists true. split; [reflexivity|]. repeat constructor. discriminate.
+  Qed.
+End LC.
+
+Example C06_LA_cer_sound_nonvacuous :
+  simp_pre_ok LC.sp /\ unique_ids LC.Pc /\ unique_ids (cer_compile LC.sp LC.nm LC.Pc) /\
+  (forall s args i a, LC.G s -> In (i, a) (p_actions LC.Pc) -> Forall (cond_ok LC.Pc s a args) (cond_effs (a_effs a))) /\
+  map fst (p_actions (cer_compile LC.sp LC.nm LC.Pc)) = [10%N] /\
+  valid_plan false (cer_compile LC.sp LC.nm LC.Pc) LC.sc0 [(10%N, [])] = true /\
+  vt_map_back (cer_table LC.sp LC.nm LC.Pc) [(10%N, [])] = [(0%N, [])] /\
+  valid_plan false LC.Pc LC.sc0 [(0%N, [])] = true.
+Proof.
+  split; [exact LC.sp_ok|]. split; [repeat constructor; intros []|]. split; [vm_compute; repeat constructor; intros []|].
+  split; [exact LC.cond|]. repeat split; vm_compute; reflexivity.
+Qed.
